@@ -108,3 +108,19 @@ Theorem C09_cut_edge_same_crossings :
   (Slab.qy m - Slab.qy a) * (Slab.qx b - Slab.qx a) == (Slab.qy b - Slab.qy a) * (Slab.qx m - Slab.qx a) ->
   forall p, Slab.crossings [Slab.mk_edge a b] p = Slab.crossings [Slab.mk_edge a m; Slab.mk_edge m b] p.
 Proof. exact split_edge_crossings. Qed.
+
+From GB Require Import BoundarySplitRing.
+Theorem C09_between_unfold :
+  forall a m b : Slab.qpt,
+  (between_x a m b <-> (Slab.qx a < Slab.qx m /\ Slab.qx m < Slab.qx b) \/ (Slab.qx b < Slab.qx m /\ Slab.qx m < Slab.qx a))
+  /\ (on_line a m b <-> (Slab.qy m - Slab.qy a) * (Slab.qx b - Slab.qx a) == (Slab.qy b - Slab.qy a) * (Slab.qx m - Slab.qx a)).
+Proof. exact (fun a m b => conj (conj (fun H => H) (fun H => H)) (conj (fun H => H) (fun H => H))). Qed.
+
+(** ring level: an extra vertex strictly inside an edge of a result ring, in either direction of
+    travel, leaves the region as it is *)
+Theorem C09_extra_vertex_on_an_edge_same_region :
+  forall (e0 : Slab.qpt) (pre : list Slab.qpt) (a m b : Slab.qpt) (post : list Slab.qpt) (rs : list Slab.ring),
+  between_x a m b -> on_line a m b ->
+  forall p, Slab.inside_eo ((e0 :: pre ++ a :: m :: b :: post) :: rs) p
+          = Slab.inside_eo ((e0 :: pre ++ a :: b :: post) :: rs) p.
+Proof. exact extra_vertex_same_region. Qed.
